@@ -19,7 +19,7 @@ func init() { core.Register(c19{}) }
 func (c19) ID() string    { return "C19" }
 func (c19) Level() string { return "exploration" }
 func (c19) Rule() string {
-	return "cases = command sequences of 50..400 commands over 3..6 keys x 3..5 fields/members mixing strings with TTL (0, +10 min, +1 h, +10^4 h, -1 ms, -1 h, 250 years, MaxInt64: the nearest deadline is 10 minutes away, so expiry never depends on when the check runs), hashes, sets, lists (push/pop at both ends, pops on empty lists) and sorted sets (score updates, re-adding with the same score), wrong-type commands on every type pair, Del + re-creation with another type, commands on expired strings, and 1..4 restarts; store with small DataFileSize so that structure updates span rotations, all index types and both I/O types. Every reply is normalised to an abstract outcome (present(v) / absent / bool / size / score / type / wrong-type) and compared with an in-memory reference model of the five types, immediately and again for a full read-back of all keys/fields/members after every restart. Non-trivial: sequence using >=4 of the 5 types, >=1 wrong-type reply, >=1 Del + re-creation and >=1 restart; distinct = hash of (config, command log)"
+	return "cases = command sequences of 50..400 commands over 3..6 keys x 3..5 fields/members mixing strings with TTL (0, +10 min, +1 h, +10^4 h, -1 ms, -1 h, 250 years, MaxInt64: the nearest deadline is 10 minutes away, so expiry never depends on when the check runs), hashes, sets, lists (push/pop at both ends, pops on empty lists) and sorted sets (score updates, re-adding with the same score), wrong-type commands on every type pair, Del + re-creation with another type, commands on expired strings, and 1..4 restarts; store with small DataFileSize so that structure updates span rotations, all index types and both I/O types. In every second case key and field/member are passed as sub-slices of one packet buffer (the key slice has spare capacity holding the next argument), as a network front-end would. Every reply is normalised to an abstract outcome (present(v) / absent / bool / size / score / type / wrong-type) and compared with an in-memory reference model of the five types, immediately and again for a full read-back of all keys/fields/members after every restart. Non-trivial: sequence using >=4 of the 5 types, >=1 wrong-type reply, >=1 Del + re-creation and >=1 restart; distinct = hash of (config, command log)"
 }
 func (c19) Assumptions() []string {
 	return []string{"absence encodings ((nil,nil), ErrKeyNotFound, (-1,nil)) are normalised to `absent`", "string values are non-empty; hash fields and list elements may be empty, in which case HGet/LPop/RPop replies are compared modulo `empty == absent` (the API cannot tell them apart) while HSet/HDel flags and sizes are compared exactly",
@@ -143,6 +143,12 @@ func (c19) Run(c core.Case, w *core.Worker) core.Result {
 		keys = append(keys, fmt.Sprintf("k%d", i))
 	}
 	elems := []string{"f0", "f1", "f2", "f3", "f4"}[:r.Range(3, 5)]
+	numeric := c.Index%3 == 1
+	if numeric {
+		// members that are the decimal text of scores (followed by other members): the two kinds
+		// of internal sorted-set keys must not run into each other
+		elems = []string{"1", "23", "123", "12", "3", "2"}[:r.Range(4, 6)]
+	}
 	typesUsed := map[byte]bool{}
 	cmp := func(cmd, got, want string) {
 		res.Add("replies_compared", 1)
@@ -257,6 +263,13 @@ func (c19) Run(c core.Case, w *core.Worker) core.Result {
 		k := keys[r.Intn(len(keys))]
 		e := elems[r.Intn(len(elems))]
 		kb, eb := []byte(k), []byte(e)
+		if c.Index%2 == 0 {
+			// arguments handed over the way a network server does: key and field/member are
+			// sub-slices of ONE packet buffer, so the key slice has spare capacity that holds
+			// live data (the next argument)
+			pk := append(append(append([]byte{}, k...), e...), "\r\n$5\r\nvalue\r\n-live-packet-bytes-"...)
+			kb, eb = pk[:len(k)], pk[len(k):len(k)+len(e)]
+		}
 		pv, st := core.Safe(func() {
 			switch cmd := r.Intn(19); cmd {
 			case 0: // Set
@@ -434,6 +447,9 @@ func (c19) Run(c core.Case, w *core.Worker) core.Result {
 				cmp(name, outVal(v, err), want)
 			case 12, 13: // ZAdd
 				score := float64(r.Range(0, 9)) + float64(r.Intn(4))/4 // never -1: ZScore encodes absence as -1
+				if numeric && r.Chance(2, 3) {
+					score = float64([]int{1, 2, 12, 3, 23}[r.Intn(5)])
+				}
 				switch r.Intn(5) {
 				case 0:
 					// scores that need all 17 significant digits, large integers, tiny and huge magnitudes
